@@ -443,6 +443,8 @@ func exhaustive(w *rec.Writer, tier string) {
 						lvl := plevel
 						if k == 3 || (e >= 0 && tier != "thorough") {
 							lvl = 0
+						} else if e >= 0 {
+							lvl = 1
 						}
 						for _, ops := range patterns(total(in2), true, lvl) {
 							emit(w, &caseSpec{Kind: "combined", In: in2, Ops: ops, Static: i%2 == 0, Nil: si%3 == 0})
@@ -641,6 +643,10 @@ func main() {
 		return
 	}
 	r := rec.NewRand(o.Seed)
-	exhaustive(w, o.Tier)
+	// the exhaustive part does not depend on the seed: in the thorough tier (several seeds per
+	// check) it is run for odd seeds only
+	if o.Tier != "thorough" || o.Seed%2 == 1 {
+		exhaustive(w, o.Tier)
+	}
 	random(w, r, o.N, o.Tier)
 }
